@@ -31,7 +31,7 @@ ASSUMPTIONS = ["os-level events issued through Python are all seen by the audit 
                "'complete' = the file decompresses (with its .ch) to / equals the source bytes",
                "a failure is an exception raised while one chunk is being (de)compressed"]
 REQUIRED = {"compress_faults_injected": 20, "decompress_faults_injected": 20, "remove_events_judged": 4, "stale_bin_runs": 9, "twin_sync_selectors": 50, "twin_selectors": 200,
-            "roundtrips": 4, "entry_paths": 8, "twin_inconsistent_metadata": 3, "explicit_companions": 4, "silent_write_faults_injected": 20, "same_base_name_entries": 12, "noncanonical_entries": 18, "scratch_copies": 5, "odd_names": 3, "partial_uuid_entries": 8}
+            "roundtrips": 4, "entry_paths": 8, "twin_inconsistent_metadata": 3, "explicit_companions": 4, "silent_write_faults_injected": 20, "same_base_name_entries": 12, "noncanonical_entries": 18, "scratch_copies": 5, "odd_names": 3, "partial_uuid_entries": 8, "two_band_scratch_copies": 4}
 CASE_TIMEOUT = 200.0
 
 
@@ -689,6 +689,32 @@ def run_case(case):
                             shutil.rmtree(scr)
                 except Exception as e:
                     res.exception("scratch-copy:exception", e, lab)
+        # ---- the two bands of one run (names differing in the band tag only) decompressed into ONE scratch folder, in either order: each scratch copy is its own recording
+        if kind in ("3A", "3B1", "3B2", "NPultra"):
+            rec_l = G.make(rng, kind=kind, stream="lf", ns=int(rng.integers(40, 200)), gains=G.random_gains(rng))
+            scr2 = d / "scratch-two-bands"
+            wb = d / "two-bands"
+            outs2 = {}
+            try:
+                order2 = [("ap", rec), ("lf", rec_l)] if rng.random() < 0.5 else [("lf", rec_l), ("ap", rec)]
+                for band, rc in order2:
+                    bb = G.write(rc, wb)
+                    srx = spikeglx.Reader(bb)
+                    srx.compress_file(keep_original=False, chunk_duration=0.003)
+                    srx.close()
+                for band, rc in order2:
+                    src = spikeglx.Reader(wb / f"run_g0_t0.imec0.{band}.cbin")
+                    out = Path(src.decompress_to_scratch(scratch_dir=scr2))
+                    res.count("scratch_copies")
+                    res.count("two_band_scratch_copies")
+                    srs = spikeglx.Reader(out)
+                    ok = out.read_bytes() == rc.raw.tobytes() and srs.shape == src.shape and np.array_equal(srs[:, :], src[:, :]) and srs.type == band and srs.fs == src.fs
+                    res.check(ok, "scratch-copy:two-bands", f"{kind}: {band} band decompressed into a scratch folder shared with the other band: {out.name} holds "
+                              f"{out.stat().st_size} bytes (recording {rc.raw.nbytes}), reader type {srs.type} shape {srs.shape} vs {src.shape}")
+                    srs.close()
+                    src.close()
+            except Exception as e:
+                res.exception("scratch-copy:two-bands:exception", e, f"{kind}: ap and lf into one scratch folder")
         nt = 1
         res.sig = f"entry-{kind}"
     res.nontrivial = nt > 0
